@@ -35,7 +35,6 @@ const (
 // Candidate-finding signatures: failures of the hypothesis-violating streams.
 const (
 	SigComma    = "url-comma-split"
-	SigNonLayer = "nonlayer-child-shifts-url-index"
 	SigDupURLs  = "extra-dup-digest-foreign-urls"
 	SigPreset   = "extra-preset-annotation-kept"
 )
@@ -61,21 +60,22 @@ type ReadFn func(labels map[string]string) (*Src, error)
 type Impl struct {
 	DefaultWrapper func(ref string, prefetch int64) func(images.Handler) images.Handler
 	ExtraHandler   func(prefetch int64, wrapper func(images.Handler) images.Handler) func(images.Handler) images.Handler
-	ReadDefault    ReadFn // source.FromDefaultLabels
-	ReadCRI        ReadFn // service.sourceFromCRILabels           (nil outside package service)
-	ReadBoth       ReadFn // service.sources(cri, default)         (nil outside package service)
+	ReadDefault    ReadFn                                   // source.FromDefaultLabels
+	ReadCRI        ReadFn                                   // service.sourceFromCRILabels           (nil outside package service)
+	ReadBoth       ReadFn                                   // service.sources(cri, default)         (nil outside package service)
 	AWV            func(key string, values []string) string // source.appendWithValidation (nil outside package source)
 	Keys           []string                                 // the ten key constants as the package sees them (nil if unreachable)
 	KeyPairs       [][2]string                              // package constant vs protocol literal, compared on the Go side
 }
 
 type gen struct {
-	impl   Impl
-	rnd    *verifutil.Rand
-	out    *verifutil.Out
-	stream string // "clean" or "hyp"
-	hypSig string // signature used for pairing failures while a hypothesis-violating case runs
-	serial int
+	impl     Impl
+	rnd      *verifutil.Rand
+	out      *verifutil.Out
+	stream   string // "clean" or "hyp"
+	hypSig   string // signature used for pairing failures while a hypothesis-violating case runs
+	noteOnly bool   // stream "outside": oracle verdicts are counted, never reported
+	serial   int
 }
 
 // ---------------------------------------------------------------- encoding
@@ -285,6 +285,18 @@ func (g *gen) urls(pos int, kind int) []string {
 			l = append(l, "x")
 		}
 		return l
+	case 7: // equal URLs whose total fits without the separators but not with them
+		n := 20 + g.rnd.Intn(70)
+		l0 := (4096 - len(KURLsPfx) - 1 - g.rnd.Intn(3)) / n
+		var l []string
+		for k := 0; k < n+3; k++ {
+			s := u(k)
+			if len(s) < l0 {
+				s += strings.Repeat("e", l0-len(s))
+			}
+			l = append(l, s[:l0])
+		}
+		return l
 	case 5: // empty-string elements
 		return [][]string{{""}, {"", u(1)}, {u(0), ""}, {u(0), "", u(2)}, {"", ""}}[g.rnd.Intn(5)]
 	default: // non-ASCII bytes (lengths are byte lengths)
@@ -293,7 +305,7 @@ func (g *gen) urls(pos int, kind int) []string {
 }
 
 func (g *gen) urlKind() int {
-	return g.rnd.Pick(60, 20, 4, 3, 4, 5, 4)
+	return g.rnd.Pick(60, 20, 4, 3, 4, 5, 4, 3)
 }
 
 var otherAnn = [][2]string{
@@ -368,7 +380,7 @@ func (g *gen) manifest(nLayers int, dup int, dupSameURLs bool, presetDefaultKeys
 				d.Digest = g.digest()
 			}
 			k := g.urlKind()
-			if !longURLs && (k == 2 || k == 3) {
+			if !longURLs && (k == 2 || k == 3 || k == 7) {
 				k = 1
 			}
 			d.URLs = g.urls(i+1, k)
@@ -476,12 +488,20 @@ func trunc(l []string) []string {
 }
 
 func (g *gen) fail(sig, what string) {
+	if g.noteOnly {
+		g.out.Count("outside-domain:" + sig)
+		return
+	}
 	g.out.Fail(sig, what)
 }
 
 // pairFail reports a URL / neighbour pairing failure: inside a hypothesis-violating case it
 // carries that case's dedicated signature.
 func (g *gen) pairFail(sig, what string) {
+	if g.noteOnly {
+		g.out.Count("outside-domain:" + sig)
+		return
+	}
 	if g.hypSig != "" {
 		g.out.Fail(g.hypSig, "["+sig+"] "+what)
 		return
@@ -718,4 +738,3 @@ var badDigests = []string{"", "sha256:", "sha256", ":abcd", "sha256:ABCDEF", "md
 var prefetchStrings = []string{"", "abc", "+5", "-0", "0", "007", "9223372036854775807", "9223372036854775808",
 	"-9223372036854775808", "-9223372036854775809", "1_000", " 5", "5 ", "0x10", "1e3", "+", "-", "+-1", "--1",
 	"99999999999999999999999999", "１２"}
-
